@@ -14,7 +14,8 @@ from props import c02
 
 THEOREMS = ["Matid.Props.C04.same_id_of_same_analysis", "Matid.Props.C06.id_string_canonical",
             "Matid.Props.Proto.accepted_periodicity", "Matid.Props.Proto.span_rule_ok", "Matid.Props.Proto.best_span_valid"]
-TRUSTED = ["Lean 4 kernel", "axioms: propext, Classical.choice, Quot.sound at most",
+TRUSTED = ["stage models of the finder (SbcEntry, SpanGraph, BestBasis, AdaptiveCell, WithinBasis, ProtoAssemble, ProtoDecision, Region) with their theorems as obligations; tied by recorded-call correspondence in THIS run: the answers of sub-functions modelled elsewhere (get_matches, get_matches_simple, get_positions_within_basis, _find_best_basis inside the span-graph replay) are recorded and handed to the model as oracle data (recorders in harness/sbc_common.py, harness/region_model.py)", "rule translators gen_sbc_rule / gen_proto_rule / gen_region_rule / gen_assemble_rule / gen_dim_rule (AST facts; a harmless refactoring can flip one)",
+           "Lean 4 kernel", "axioms: propext, Classical.choice, Quot.sound at most",
            "contract P (the prototype cell found by the periodic finder is a description of the source crystal related by basis change, proper motion and permutation): SAMPLED, not proved",
            "the symmetry analysis of both cells is C05-C08's subject"]
 EXPL = ("Lean carries only the last step (equal space-group number and equal multiset of set strings give equal ids: C06.id_string_canonical). That the "
